@@ -183,6 +183,11 @@ func runC06(w *World) {
 			}
 			w.Quiesce()
 		}
+		// KEEPALIVEs are still legal with a zero hold time and must not disturb anything
+		for i, n := 0, w.Draw(3, "zka"); i < n; i++ {
+			deliver(KeepaliveFrame())
+			w.Quiesce()
+		}
 		nupd := p.Plug.NUpd
 		deliver(MkFrame(MsgUpdate, []byte{0, 0, 0, 0}))
 		w.Quiesce()
